@@ -6,6 +6,8 @@ Static clauses (exact for the mechanism the property names):
   H-ITER  no order-dependent consumption of a hash container in the closure of parse_string / analyze / lower / to_bytes / emit_tii
           (iteration that feeds an ordered result, *and* a variable assigned on some iterations and read on later ones)
   H-JSON  the TII file is written from a serde_json::Value whose maps are sorted (serde_json without `preserve_order`)
+  H-FILE  the TII file is replaced as a whole (`fs::write`, `File::create`, or OpenOptions with `truncate(true)` / `create_new(true)`
+          and not `append`): what an earlier build left at the output path never shows in the bytes
   H-SRC   no other nondeterminism source (time, randomness, environment, threads, explicit RandomState) in the closure of
           parse / analyze / lower / to_bytes
 """
@@ -107,20 +109,68 @@ def h_json(F, res):
         res.add([finding("H-JSON", key, "Cargo.lock", "serde_json is built with `preserve_order`: serde_json::Map keeps insertion (= hash iteration) order")])
     else:
         res.add([ok("H-JSON", key, "Cargo.lock", "resolved features %s: serde_json::Map is a BTreeMap" % sorted(feats))])
-    # the string written derives from serde_json::to_value(tii)
+    # the string written derives from serde_json::to_value(tii) - the emitter read with the crate's helpers inlined
+    # (`write_json(&path, &json!(tii))`)
+    def want(t, callee):
+        return callee["crate"] == "tx3c" and not callee.get("impl_trait") and not callee.get("trait_default") and len(callee["blocks"]) <= 200
+    _KEEP.append(want)
+    f = mir.inline_calls(F, f, want=want, depth=2)
     du = mir.DefUse(f)
     tv = [bi for bi, t in mir.calls(f) if (t.get("callee") or "") == "serde_json::to_value"]
-    sp = [(bi, t) for bi, t in mir.calls(f) if (t.get("callee") or "") in ("serde_json::to_string_pretty", "serde_json::to_string", "serde_json::to_vec", "serde_json::to_writer", "serde_json::to_writer_pretty")]
+    VALUE_ARG = {"serde_json::to_string_pretty": 0, "serde_json::to_string": 0, "serde_json::to_vec": 0, "serde_json::to_vec_pretty": 0,
+                 "serde_json::to_writer": 1, "serde_json::to_writer_pretty": 1}
+    sp = [(bi, t) for bi, t in mir.calls(f) if (t.get("callee") or "") in VALUE_ARG]
     key2 = TII_ROOT + "|written from a serde_json::Value"
     good = bool(sp)
     for bi, t in sp:
-        o = mir.provenance(f, du, t["args"][0], transparent_extra=("std::result::Result::<T, E>::unwrap", "std::result::Result::<T, E>::expect"))
+        o = mir.provenance(f, du, t["args"][VALUE_ARG[t["callee"]]], transparent_extra=("std::result::Result::<T, E>::unwrap", "std::result::Result::<T, E>::expect"))
         if not any(x.kind == "call" and x.callee == "serde_json::to_value" for x in o):
             good = False
     if good and tv:
         res.add([ok("H-JSON", key2, w, "to_string_pretty(&json!(tii)): the TiiFile's HashMaps pass through serde_json::Value first")])
     else:
         res.add([finding("H-JSON", key2, w, "the TII text is serialised directly from the TiiFile struct (HashMap fields in iteration order)")])
+    # H-FILE: the file holds what this run wrote and nothing else: it is written by `fs::write` / `File::create`, or opened with
+    # `truncate(true)` / `create_new(true)` and not in append mode.  Otherwise the bytes at the output path depend on what an
+    # earlier build left there (the tail of a longer file survives).
+    key3 = TII_ROOT + "|the output file is replaced, not overwritten in place"
+    BUILDER = tuple("std::fs::OpenOptions::" + m for m in ("write", "create", "truncate", "append", "read", "create_new"))
+    writers = []
+    for bi, t in mir.calls(f):
+        c = t.get("callee") or ""
+        if c in ("std::fs::write", "std::fs::File::create", "std::fs::File::create_new", "std::fs::File::create_buffered"):
+            writers.append((t["line"], c, None))
+        elif c == "std::fs::OpenOptions::open" and t["args"]:
+            flags = {}
+            for o in mir.provenance(f, du, t["args"][0], transparent_extra=BUILDER):
+                for nm in o.through:
+                    flags.setdefault(nm.split("::")[-1], None)
+            for bj, t2 in mir.calls(f):
+                c2 = t2.get("callee") or ""
+                if c2 in BUILDER and c2.split("::")[-1] in flags and len(t2["args"]) > 1:
+                    cv = mir.op_const(t2["args"][1])
+                    val = bool(cv.get("int")) if cv and "int" in cv else None
+                    prev = flags[c2.split("::")[-1]]
+                    flags[c2.split("::")[-1]] = val if prev is None else (prev if prev == val else "mixed")
+            writable = flags.get("write") or flags.get("append")
+            if writable is None and "write" not in flags and "append" not in flags:
+                continue       # opened for reading
+            if flags.get("append") in (True, "mixed", None) and "append" in flags:
+                writers.append((t["line"], c, "opened in append mode"))
+            elif flags.get("truncate") is True or flags.get("create_new") is True:
+                writers.append((t["line"], c, None))
+            else:
+                writers.append((t["line"], c, "opened for writing without `truncate(true)` (flags set: %s)" % ", ".join(sorted(flags))))
+    badw = [x for x in writers if x[2]]
+    if badw:
+        res.add([finding("H-FILE", key3, where(f, badw[0][0]), "the output file is %s: when a longer file already sits at the output path its tail survives, so the same source and arguments do not always leave the same bytes" % badw[0][2])])
+    elif writers:
+        res.add([ok("H-FILE", key3, where(f, writers[0][0]), "written through %s" % ", ".join(sorted({x[1].split("::")[-1] for x in writers})))])
+    else:
+        res.add([assumption("H-FILE", key3, w, "no recognised file-writing call in the emitter (helpers inlined): how the file is written is not decided")])
+
+
+_KEEP = []
 
 
 BAD_SOURCES = ("std::time::", "std::env::var", "std::env::vars", "std::thread::", "std::hash::RandomState::new", "std::collections::hash_map::RandomState::new",
@@ -156,6 +206,7 @@ def run(ctx):
     res.rule("H-ITER", "no order-dependent consumption of a hash container in the closure")
     res.rule("H-JSON", "TII text is produced from a serde_json::Value with sorted maps")
     res.rule("H-SRC", "no other nondeterminism source in the closure")
+    res.rule("H-FILE", "the emitted file is replaced as a whole (fs::write / File::create / truncate), never overwritten in place")
     cg = CallGraph(F, callbacks=False)
     h_ser(F, res, cg)
     h_iter(F, res, cg)
